@@ -458,3 +458,38 @@ func VerifDHGroupSizes() []int {
 func VerifBcryptPBKDF(password, salt []byte, rounds, keyLen int) ([]byte, error) {
 	return bcrypt_pbkdf.Key(password, salt, rounds, keyLen)
 }
+
+// VerifNewPacketCipherRaw builds a packet cipher directly from key material
+// (no key derivation), through the same cipherModes constructor the package
+// uses, so that a harness can choose the initial IV (e.g. an AES-GCM
+// invocation counter just below a carry boundary).
+func VerifNewPacketCipherRaw(cipher, mac string, key, iv, macKey []byte) (*VerifPacketCipher, error) {
+	cm := cipherModes[cipher]
+	if cm == nil {
+		return nil, errors.New("unsupported cipher")
+	}
+	if !aeadCiphers[cipher] && macModes[mac] == nil {
+		return nil, errors.New("unsupported mac")
+	}
+	if len(key) != cm.keySize || len(iv) != cm.ivSize {
+		return nil, errors.New("bad key or iv size")
+	}
+	pc, err := cm.create(append([]byte(nil), key...), append([]byte(nil), iv...), append([]byte(nil), macKey...),
+		DirectionAlgorithms{Cipher: cipher, MAC: mac, compression: compressionNone})
+	if err != nil {
+		return nil, err
+	}
+	return &VerifPacketCipher{pc}, nil
+}
+
+// VerifCipherSizes reports the key and IV sizes of a cipher mode and the key
+// size of a MAC mode (0 if unknown).
+func VerifCipherSizes(cipher, mac string) (keySize, ivSize, macKeySize int) {
+	if cm := cipherModes[cipher]; cm != nil {
+		keySize, ivSize = cm.keySize, cm.ivSize
+	}
+	if mm := macModes[mac]; mm != nil {
+		macKeySize = mm.keySize
+	}
+	return
+}
